@@ -76,7 +76,7 @@ CHECKS = {
                       "drops, resets, lost replies and delays on every group request type; coordinator moves with/without "
                       "state, broker bounces, session expiry; after the quiet point + B_group: Stable, all live members in the "
                       "latest generation, full coverage, then 3 x session_timeout without JoinGroup and with regular heartbeats"),
-                note=SIM_NOTE + "; liveness restated as bounded progress in virtual time; only retriable/membership errors injected"),
+                note=SIM_NOTE + "; liveness restated as bounded progress in virtual time; non-retriable coordinator codes (authorization, inconsistent protocol) in 30% of the fault-heavy histories"),
     "C08": dict(ready=True, engine="simcluster", level="exploration", design_ref="DESIGN.md §6 C08",
                 technique="runtime monitoring: independent isolation reader over generated transactional logs vs. what the real "
                           "consumer delivers at both isolation levels; fetch-offset stall detector",
